@@ -1,4 +1,4 @@
 SPECIFICATION TSpec
-INVARIANTS GeneratorOKT HeaderCorruptRejectedT CanonIsAncestryT NothingAboveHeadT RetrievableT LookupT HeadsKnownT NoPanicT
+INVARIANTS GeneratorOKT HeaderCorruptRejectedT CanonIsAncestryT NothingAboveHeadT RetrievableT LookupT HeadsKnownT NoPanicT KnownFindingsT
 POSTCONDITION TraceAccepted
 CHECK_DEADLOCK FALSE
